@@ -60,6 +60,7 @@ class Ids:
     def __init__(self):
         self.names = dict(RESERVED)
         self.defs = {}
+        self.objs = {}              # def id -> the definition object itself
 
     def name(self, n):
         if n not in self.names:
@@ -70,6 +71,7 @@ class Ids:
         k = canon(d)
         if k not in self.defs:
             self.defs[k] = len(self.defs) + 10
+            self.objs[self.defs[k]] = d
         return self.defs[k]
 
 
@@ -142,7 +144,11 @@ class Driver:
         """store0: dict name -> builtin tag (string).  Fresh monitor state on an empty directory."""
         self.sync_dir({})
         self.store.clear()
-        self.builtin = {k: {'builtin': v} for k, v in store0.items()}
+        if store0 == 'REAL':        # the server's own built-in policies (engine leg)
+            import copy
+            self.builtin = copy.deepcopy(self.policy_mod.policies)
+        else:
+            self.builtin = {k: {'builtin': v} for k, v in store0.items()}
         self.store.update(self.builtin)
         if self.mon is None:
             self.mon = self.monitor_mod.PolicyDirectoryMonitor(self.dir, self.store, live_monitoring=False)
@@ -443,25 +449,27 @@ CORPUS = [
 ]
 
 
-def random_history(rng, depth):
+def random_history(rng, depth, nfiles=len(FILES), ncontents=None):
+    ncontents = ncontents or len(RCONTENTS)
     h = []
     for _ in range(depth):
         step = []
         for _ in range(rng.choice([0, 1, 1, 1, 1, 2, 2, 3])):
             r = rng.random()
-            f = rng.randrange(len(FILES))
+            f = rng.randrange(nfiles)
             if r < 0.25:
                 step.append(('rm', f))
             else:
                 mode = rng.choice(['new'] * 8 + ['same', 'old'])
-                step.append(('w', f, rng.randrange(len(RCONTENTS)), mode))
+                step.append(('w', f, rng.randrange(ncontents), mode))
         h.append(step)
     return h
 
 
-def next_dirstate(cur, step, clock):
+def next_dirstate(cur, step, clock, contents=None):
     """The directory after the events of one step (pure)."""
     cur = dict(cur)
+    contents = contents or RCONTENTS
     for ev in step:
         b = FILES[ev[1]]
         if ev[0] == 'rm':
@@ -475,25 +483,32 @@ def next_dirstate(cur, step, clock):
                 mt = old[1] - 5 if old else 50
             else:
                 mt = clock
-            cur[b] = (RCONTENTS[ev[2]], mt)
+            cur[b] = (contents[ev[2]], mt)
     return cur, clock
 
 
-def run_history(ctx, ex, store0, hist, label, avoid_drop=False):
+def run_history(ctx, ex, store0, hist, label, avoid_drop=False, contents=None, probe=None, leg=None):
     """avoid_drop: a step that would contain a shadowed drop (the known finding) is replaced by an
-    empty step, so that the whole history stays inside the class the partial theorem covers."""
+    empty step, so that the whole history stays inside the class the partial theorem covers.
+    probe(spec, history): called on the fresh monitor and after every scan that agrees with the
+    specification; returns False to end the history."""
     d = ex.drv
     spec = ex.start(store0)
     clock = 100
     done = []
+    hdesc = {'label': label, 'store0': store0, 'steps': done}
+    if leg:
+        hdesc['leg'] = leg
+    if probe and not probe(spec, hdesc):
+        return ['bad']
     mrun, srun = [], []
     names = set()
     verdicts = []
     for step in hist:
-        nd, nclock = next_dirstate(d.dirstate, step, clock)
+        nd, nclock = next_dirstate(d.dirstate, step, clock, contents)
         if avoid_drop:
-            probe = spec.copy()
-            if not probe.step([(FILES.index(b), nd[b][1], d.parse(nd[b][0])) for b in sorted(nd)]):
+            trial = spec.copy()
+            if not trial.step([(FILES.index(b), nd[b][1], d.parse(nd[b][0])) for b in sorted(nd)]):
                 step, nd, nclock = [], dict(d.dirstate), clock
                 ctx.count('history.step.replaced-to-avoid-shadowed-drop')
         clock = nclock
@@ -501,7 +516,7 @@ def run_history(ctx, ex, store0, hist, label, avoid_drop=False):
         for ev in step:
             ctx.count('history.event.%s%s' % (ev[0], '.' + ev[3] if ev[0] == 'w' else ''))
         done.append([list(e) for e in step])
-        view, post, exp, ok, verdict = ex.observed_scan(spec, {'label': label, 'store0': store0, 'steps': done})
+        view, post, exp, ok, verdict = ex.observed_scan(spec, hdesc)
         verdicts.append(verdict)
         if post is None:
             break
@@ -511,11 +526,146 @@ def run_history(ctx, ex, store0, hist, label, avoid_drop=False):
         ctx.count('history.scan.' + verdict)
         if verdict != 'ok':
             break       # afterwards the implementation has left the specification
+        if probe and not probe(spec, hdesc):
+            verdicts[-1] = 'bad'
+            break
     s0 = pr_al(sorted((d.ids.name(k), d.ids.defn(v)) for k, v in d.builtin.items()), cp.z)
     ex.runs.append(('(MRun %s %s)' % (s0, cp.lst(mrun, str)), label))
     ex.sruns.append(('(SRun %s %s %s)' % (s0, cp.lst(sorted(names | {0, 1}), cp.z), cp.lst(srun, str)), label))
     ctx.case_seen(('h', freeze(store0), freeze(hist), avoid_drop), nontrivial=any(hist))
     return verdicts
+
+
+# ----------------------------------------------------------------------------- the engine leg
+# "In force" is what the ENGINE applies.  One KmipEngine shares the monitor's store (as server.py wires them: the
+# same mapping object is handed to PolicyDirectoryMonitor and to KmipEngine) and lives through all file events of a
+# history; after every scan, Get and Locate by the owner and by another user on objects created under the policy
+# names in play must come out as the SPECIFICATION's definition for that name says (direct oracle; no model).
+def epol(get, locate):
+    return {'SYMMETRIC_KEY': {'GET': get, 'LOCATE': locate}}
+
+
+ECONTENTS = [
+    json.dumps({'p': epol('ALLOW_ALL', 'ALLOW_ALL')}),
+    json.dumps({'p': epol('ALLOW_OWNER', 'ALLOW_ALL'), 'q': epol('ALLOW_ALL', 'ALLOW_OWNER')}),
+    json.dumps({'q': epol('DISALLOW_ALL', 'ALLOW_ALL'), 'default': epol('DISALLOW_ALL', 'DISALLOW_ALL')}),
+    '{"p": {"SYMMETRIC_KEY": {"GET": "ALLOW_ALL"}',                                       # truncated JSON
+    json.dumps({'p': epol('DISALLOW_ALL', 'ALLOW_OWNER')}),
+    json.dumps({'p': {'preset': epol('ALLOW_OWNER', 'ALLOW_OWNER'), 'groups': {'g': epol('ALLOW_ALL', 'ALLOW_ALL')}},
+                'public': epol('DISALLOW_ALL', 'DISALLOW_ALL')}),
+    json.dumps({'q': epol('ALLOW_OWNER', 'DISALLOW_ALL')}),
+    json.dumps({'p': {'CERTIFICATE': {'GET': 'ALLOW_ALL'}}}),                             # p defined, but nothing for symmetric keys
+]
+ECORPUS = [
+    # add, edit, break, repair, shadow, un-shadow, remove, define again in another file
+    ('add-edit-break-repair-shadow-remove',
+     [[('w', 0, 0, 'new')], [('w', 0, 1, 'new')], [('w', 0, 3, 'new')], [('w', 0, 4, 'new')], [('w', 1, 0, 'new')], [('rm', 1)],
+      [('rm', 0)], [('w', 2, 1, 'new')]]),
+    ('reserved-name-in-file', [[('w', 0, 2, 'new')], [('w', 1, 5, 'new')], [('rm', 0)], [('rm', 1)]]),
+    ('edit-with-unchanged-mtime', [[('w', 0, 0, 'new')], [('w', 0, 4, 'same')], [('w', 0, 4, 'new')], [('w', 0, 7, 'new')], [('w', 0, 6, 'new')]]),
+]
+ENGINE_NAMES = ['p', 'q', 'default', 'nope']      # 'nope' is never defined by any file
+
+
+def spec_decision(bundle, user, owner, op):
+    """What the policy definition `bundle` (parser output, or None when the name is not defined) says
+    about `op` on a symmetric key for a user without groups."""
+    from kmip.core import enums
+    if not bundle:
+        return False
+    perm = ((bundle.get('preset') or {}).get(enums.ObjectType.SYMMETRIC_KEY) or {}).get(enums.Operation[op])
+    if perm == enums.Policy.ALLOW_ALL:
+        return True
+    if perm == enums.Policy.ALLOW_OWNER:
+        return user == owner
+    return False
+
+
+class EngineProbe:
+    def __init__(self, ctx, drv):
+        import kdrv
+        self.kdrv = kdrv
+        self.ctx = ctx
+        self.drv = drv
+        self.eng = kdrv.Engine(policies=drv.store, workdir=ctx.work / 'engine')
+        self.uids = {}
+        for n in ENGINE_NAMES:
+            r = self.eng.request([kdrv.create(extra=[kdrv.attr(kdrv.AT.OPERATION_POLICY_NAME, n)])], user='alice')
+            if r['error'] or not kdrv.ok(r['items'][0]):
+                raise RuntimeError('engine leg: cannot create an object under policy %r: %r' % (n, r))
+            self.uids[n] = kdrv.first_uid(r['items'][0])
+        self.last = {}
+        self.probes = 0
+
+    def close(self):
+        self.eng.close()
+
+    def __call__(self, spec, history):
+        kdrv, drv, ctx = self.kdrv, self.drv, self.ctx
+        exp_store = spec.store()
+        for user in ('alice', 'bob'):
+            r = self.eng.request([kdrv.locate()], user=user)
+            located = set((r['items'][0]['payload'] or {}).get('unique_identifiers') or []) if not r['error'] and kdrv.ok(r['items'][0]) else None
+            for n in ENGINE_NAMES:
+                nid = drv.ids.names.get(n)
+                bundle = drv.ids.objs.get(exp_store.get(nid)) if nid is not None else None
+                g = self.eng.request([kdrv.get(self.uids[n])], user=user)
+                it = g['items'][0] if not g['error'] else None
+                got = None
+                if it is not None and kdrv.ok(it):
+                    got = True
+                elif it is not None and it['reason'] == 'PERMISSION_DENIED':
+                    got = False
+                for op, observed in (('GET', got), ('LOCATE', None if located is None else self.uids[n] in located)):
+                    want = spec_decision(bundle, user, 'alice', op)
+                    self.probes += 1
+                    ctx.count('engine.probe.%s.%s' % (op, 'allowed' if want else 'denied'))
+                    k = (n, user, op)
+                    if k in self.last and self.last[k] != want:
+                        ctx.count('engine.probe.decision-changed-by-file-event')
+                    self.last[k] = want
+                    if observed is not want:
+                        in_store = drv.store.get(n)
+                        ctx.violation(
+                            {'class': 'engine-applies-other-policy', 'op': op},
+                            {'history': history, 'probe': {'policy_name': n, 'user': user, 'object_owner': 'alice', 'operation': op},
+                             'observed': observed, 'expected': want,
+                             'definition_by_the_files': repr(bundle)[:400], 'definition_in_the_store': repr(in_store)[:400],
+                             'store_follows_files': canon(in_store) == canon(bundle) if bundle is not None else in_store is None},
+                            "after these file events %s of an object under policy '%s' by %s is %s, the policy files say %s"
+                            % (op, n, 'its owner' if user == 'alice' else 'another user',
+                               {True: 'allowed', False: 'denied', None: 'failing otherwise'}[observed], 'allowed' if want else 'denied'))
+                        return False
+        return True
+
+
+def source_purges_shadowed():
+    """True when the regenerated constants say the source has the stale-cache repair: shadowed drops are then
+    inside the class the full theorem covers and need not be avoided."""
+    p = Path(__file__).resolve().parents[1] / 'coq' / 'gen' / 'PolicyNames.v'
+    return p.exists() and 'monitor_purges_shadowed : bool := true' in p.read_text()
+
+
+def engine_history(ctx, ex, hist, label):
+    pr = EngineProbe(ctx, ex.drv)
+    try:
+        v = run_history(ctx, ex, 'REAL', hist, label, avoid_drop=not source_purges_shadowed(), contents=ECONTENTS, probe=pr, leg='engine')
+    finally:
+        pr.close()
+    ctx.count('engine.histories')
+    return v, pr.probes
+
+
+def engine_leg(ctx, ex, quick):
+    rng = ctx.subrng('engine')
+    n = 0
+    for label, hist in ECORPUS:
+        n += engine_history(ctx, ex, hist, 'engine-corpus:' + label)[1]
+    for i in range(25 if quick else 200):
+        n += engine_history(ctx, ex, random_history(rng, 12 if quick else 20, nfiles=3, ncontents=len(ECONTENTS)), 'engine-random:%d' % i)[1]
+    ctx.cov['engine_leg'] = {'probes': n, 'what': 'Get/Locate through KmipEngine.process_request on one engine per history sharing the '
+                             "monitor's store; expected decision from the specification's definition for the name"}
+    ctx.log('engine leg: %d access probes' % n)
 
 
 # ----------------------------------------------------------------------------- the parser
@@ -754,6 +904,8 @@ def run(ctx):
         'state memoisation; a scripted corpus (incl. the DESIGN F8 history); seeded random histories of 30 scans with 0-3 events '
         'per scan over 4 files x 12 contents incl. equal/older mtimes and 3 initial stores.  A case is one distinct '
         '(state before, directory view, state after) triple or one distinct history.  '
+        'engine: one KmipEngine sharing the store through each of the scripted and random histories (add/edit/break/repair/remove/shadow), '
+        'Get/Locate by owner and non-owner under every policy name in play after every scan.  '
         'parser: every document of a grammar over the documented shapes and every single-position corruption.' % (4 if quick else 5))
     ctx.regen(only=['enums', 'policynames'])
     ctx.prove('props/C18.v')
@@ -768,8 +920,10 @@ def run(ctx):
         for s0 in STORES[:2]:
             run_history(ctx, ex, s0, hist, 'corpus:' + label)
     rng = ctx.subrng('histories')
+    purged = source_purges_shadowed()
     for i in range(40 if quick else 400):
-        run_history(ctx, ex, STORES[i % 3], random_history(rng, 30), 'random:%d' % i, avoid_drop=(i % 2 == 1))
+        run_history(ctx, ex, STORES[i % 3], random_history(rng, 30), 'random:%d' % i, avoid_drop=(i % 2 == 1 and not purged))
+    engine_leg(ctx, ex, quick)
     ctx.log('%d scans on the real monitor, %d distinct scan triples, %d histories' % (ex.scans, len(ex.cases), len(ex.runs)))
 
     cases = list(ex.cases)
@@ -830,7 +984,9 @@ def replay(ctx, payload):
         return 2
     ex = Explorer(ctx, 'replay')
     ex.sruns = []
-    if isinstance(h, dict):
+    if isinstance(h, dict) and h.get('leg') == 'engine':
+        verdicts, _ = engine_history(ctx, ex, [[tuple(e) for e in st] for st in h['steps']], 'replay')
+    elif isinstance(h, dict):
         verdicts = run_history(ctx, ex, h['store0'], [[tuple(e) for e in st] for st in h['steps']], 'replay')
     else:
         d = ex.drv
